@@ -185,24 +185,41 @@ def nested_programs():
         "return-method": "如何内法？\n    输出1\n输出内法\n",
     }
     def ind(txt, n): return "".join("    " * n + l + "\n" if l else "\n" for l in txt.rstrip("\n").split("\n"))
+    # t: a handler section closing the body (empty for most inner kinds)
     bodies = {
-        "method": lambda x: "如何外？\n" + ind(x, 1) + "    输出1\n（显示：（外））\n",
-        "method-twice": lambda x: "如何外？\n" + ind(x, 1) + "    输出1\n（显示：（外））\n（显示：（外））\n",
-        "own-constructor": lambda x: "定义外类：\n    其甲 = 1\n如何新建外类？\n" + ind(x, 1) + "    其甲 = 3\n令物 = （新建外类）\n令物二 = （新建外类）\n（显示：物之甲）\n",
-        "exception-constructor": lambda x: "如何新建异常？\n    输入文\n" + ind(x, 1) + "    其内容 = 文\n令错 = （新建异常：“x”）\n令错二 = （新建异常：“y”）\n（显示：错之内容）\n",
-        "exception-constructor-thrown": lambda x: "如何新建异常？\n    输入文\n" + ind(x, 1) + "    其内容 = 文\n如何试？\n    抛出异常：“x”！\n    拦截异常：\n        输出1\n（显示：（试））\n（显示：（试））\n",
-        "getter": lambda x: "定义外类：\n    其甲 = 1\n\n    何为乙？\n" + ind(x, 2) + "        输出2\n令物 = （新建外类）\n（显示：物之乙、物之乙）\n",
-        "type-method": lambda x: "定义外类：\n    其甲 = 1\n\n    如何做？\n" + ind(x, 2) + "        输出2\n令物 = （新建外类）\n（显示：以物（做））\n（显示：以物（做））\n",
-        "handler-block": lambda x: "如何外？\n    抛出异常：“x”！\n    拦截异常：\n" + ind(x, 2) + "        输出1\n（显示：（外））\n（显示：（外））\n",
-        "branch": lambda x: "如果真：\n" + ind(x, 1) + "    （显示：1）\n",
-        "while": lambda x: "令数 = 0\n每当数 < 2：\n    数 = 数 + 1\n" + ind(x, 1),
-        "iterate": lambda x: "遍历【1，2】：\n" + ind(x, 1) + "    （显示：1）\n",
-        "top-level": lambda x: x,
+        "method": lambda x, t="": "如何外？\n" + ind(x, 1) + "    输出1\n" + ind(t, 1) + "（显示：（外））\n",
+        "method-twice": lambda x, t="": "如何外？\n" + ind(x, 1) + "    输出1\n" + ind(t, 1) + "（显示：（外））\n（显示：（外））\n",
+        "own-constructor": lambda x, t="": "定义外类：\n    其甲 = 1\n如何新建外类？\n" + ind(x, 1) + "    其甲 = 3\n" + ind(t, 1) + "令物 = （新建外类）\n令物二 = （新建外类）\n（显示：物之甲）\n",
+        "exception-constructor": lambda x, t="": "如何新建异常？\n    输入文\n" + ind(x, 1) + "    其内容 = 文\n" + ind(t, 1) + "令错 = （新建异常：“x”）\n令错二 = （新建异常：“y”）\n（显示：错之内容）\n",
+        "exception-constructor-thrown": lambda x, t="": "如何新建异常？\n    输入文\n" + ind(x, 1) + "    其内容 = 文\n" + ind(t, 1) + "如何试？\n    抛出异常：“x”！\n    拦截异常：\n        输出1\n（显示：（试））\n（显示：（试））\n",
+        "exception-constructor-thrown-uncaught": lambda x, t="": "如何新建异常？\n    输入文\n" + ind(x, 1) + "    其内容 = 文\n" + ind(t, 1) + "抛出异常：“x”！\n",
+        "getter": lambda x, t="": "定义外类：\n    其甲 = 1\n\n    何为乙？\n" + ind(x, 2) + "        输出2\n" + ind(t, 2) + "令物 = （新建外类）\n（显示：物之乙、物之乙）\n",
+        "type-method": lambda x, t="": "定义外类：\n    其甲 = 1\n\n    如何做？\n" + ind(x, 2) + "        输出2\n" + ind(t, 2) + "令物 = （新建外类）\n（显示：以物（做））\n（显示：以物（做））\n",
+        "handler-block": lambda x, t="": "如何外？\n    抛出异常：“x”！\n    拦截异常：\n" + ind(x, 2) + "        输出1\n（显示：（外））\n（显示：（外））\n",
+        "branch": lambda x, t="": "如果真：\n" + ind(x, 1) + "    （显示：1）\n",
+        "while": lambda x, t="": "令数 = 0\n每当数 < 2：\n    数 = 数 + 1\n" + ind(x, 1),
+        "iterate": lambda x, t="": "遍历【1，2】：\n" + ind(x, 1) + "    （显示：1）\n",
+        "top-level": lambda x, t="": x + t,
     }
+    # a fault / a throw in the body, with the body's OWN handler section (matching, not matching, faulting itself, without 输出)
+    faults = {"div": "令丑 = 1 / 0\n", "index": "令丑 = 【1】#5\n", "throw": "抛出异常：“内”！\n", "undefined": "令丑 = 无此名\n", "method-fault": "令丑 = 以“a”（取样：5、9）\n"}
+    tails = {"match-ret": "拦截异常：\n    输出1\n", "match-noret": "拦截异常：\n    令寅 = 1\n", "match-reads": "拦截异常：\n    输出其内容\n", "nomatch": "定义别错：\n    其内容 = “b”\n", "match-faults": "拦截异常：\n    输出1 / 0\n",
+             "match-rethrows": "拦截异常：\n    抛出其！\n"}
     out = []
     for bn, mk in bodies.items():
         for iname, itxt in inner.items():
             out.append(("%s/%s" % (bn, iname), "导入《@JSON》\n" + mk(itxt) + "输出1\n"))
+        if bn in ("handler-block", "branch", "while", "iterate"): continue
+        for fn, ftxt in faults.items():
+            # (抛出异常 inside the constructor of 异常 constructs an 异常 again: unbounded recursion of the PROGRAM, like a method that
+            # calls itself for ever - exhausting the host's memory that way is not what this property is about, see DESIGN 10.4)
+            if fn == "throw" and bn.startswith("exception-constructor"): continue
+            for tn, ttxt in tails.items():
+                if tn == "nomatch":
+                    src = "导入《@JSON》\n定义别错：\n    其内容 = “b”\n\n" + mk(ftxt, "拦截别错：\n    输出1\n")
+                else:
+                    src = "导入《@JSON》\n" + mk(ftxt, ttxt)
+                out.append(("%s/fault-%s/handler-%s" % (bn, fn, tn), src + ("输出1\n" if bn != "top-level" else "")))
     return out
 
 
